@@ -106,7 +106,7 @@ func c19Gen(tier string, seed int64) []fw.Case {
 	}
 	na := tierPick(tier, 40, 600)
 	for i := 0; i < na; i++ {
-		add(c19Desc{Kind: "alias", Role: bothRoles[i%2], N: 60, Conns: 8 + rng.Intn(9)}, fmt.Sprintf("alias/%s", bothRoles[i%2]))
+		add(c19Desc{Kind: "alias", Role: bothRoles[i%2], N: 30, Conns: 8 + rng.Intn(9)}, fmt.Sprintf("alias/%s", bothRoles[i%2]))
 	}
 	bad := []string{
 		``, ` `, `{`, `[1,2`, `{"a":1`, `{"a":}`, `nul`, `tru`, `"unterminated`, `{"a":1}{"b":2}`, `1 2`, `"x"]`, `[1,2,]`, `{"a":1,}`, `'single'`, `{a:1}`, `01`, `1.`, `.5`, `+1`, `NaN`, `Infinity`,
@@ -430,8 +430,30 @@ func verifyHeld(h *held) (bool, string) {
 	return sameJSON(enc, h.doc)
 }
 
+// c19BigDoc is a document whose decoding takes milliseconds: an array of n numbers derived from tag.
+func c19BigDoc(rng *fw.Rand, tag int) []byte {
+	n := 20000 + rng.Intn(30000)
+	var sb strings.Builder
+	sb.WriteByte('[')
+	for i := 0; i < n; i++ {
+		if i > 0 {
+			sb.WriteByte(',')
+		}
+		fmt.Fprintf(&sb, "%d", tag*1000003+i)
+	}
+	sb.WriteByte(']')
+	return []byte(sb.String())
+}
+
 func c19ReadOne(ctx context.Context, r *fw.R, role Role, c *websocket.Conn, peer *RawPeer, rng *fw.Rand, def *wire.Deflater, defl bool) *held {
+	return c19ReadDoc(ctx, r, role, c, peer, rng, def, defl, false)
+}
+
+func c19ReadDoc(ctx context.Context, r *fw.R, role Role, c *websocket.Conn, peer *RawPeer, rng *fw.Rand, def *wire.Deflater, defl bool, big bool) *held {
 	doc, tgt := c19Doc(rng)
+	if big {
+		doc, tgt = c19BigDoc(rng, rng.Intn(1000)), "any"
+	}
 	wp := doc
 	comp := defl && rng.Bool()
 	if comp {
@@ -531,10 +553,17 @@ func c19Alias(r *fw.R, d c19Desc) {
 					}
 					return
 				}
-				if h := c19ReadOne(ctx, r, d.Role, c, peer, rng, def, dd.Defl); h != nil {
+				// (every third read is a large document: while it is being decoded other connections read, so a
+				// buffer handed back to the pool too early is overwritten under the decoder)
+				if h := c19ReadDoc(ctx, r, d.Role, c, peer, rng, def, dd.Defl, i%3 == 2); h != nil {
 					mu.Lock()
-					kept = append(kept, h)
+					if len(h.doc) < 4096 {
+						kept = append(kept, h)
+					}
 					mu.Unlock()
+					if len(h.doc) >= 4096 {
+						r.Count("large_documents_decoded_while_others_read", 1)
+					}
 				}
 			}
 		}(k)
